@@ -5,6 +5,7 @@ inputs to this program and to the implementation and compares the replies.
 -/
 import PysersicModel
 import PysersicModel.Driver.EarlyStop
+import PysersicModel.Driver.SkyEstimate
 
 open Pysersic
 
@@ -16,6 +17,7 @@ def dispatch (line : String) : String :=
     match cmd with
     | "ping" => "pong"
     | "es" => Driver.earlyStop args
+    | "sky" => Driver.skyEstimate args
     | _ => "bad-op " ++ cmd
 
 partial def loop (h : IO.FS.Stream) (out : IO.FS.Stream) : IO Unit := do
